@@ -449,6 +449,10 @@ class HTTP(BaseComponent):
         else:
             return
 
+        if isinstance(evalue, RedirectException):
+            self.fire(redirect(req, res, evalue.urls, evalue.code))
+            return
+
         code = evalue.code if isinstance(evalue, HTTPException) else None
 
         self.fire(httperror(req, res, code=code, error=(etype, evalue, etraceback)))
